@@ -13,7 +13,7 @@ CONSTANT FreePut = TRUE
 CONSTANT MaxOps = 3
 CONSTANT MaxSteps = 3
 CONSTANT Pool = 4
-CONSTANT Sequential = TRUE
+CONSTANT SeqPrefix = 1000000
 SPECIFICATION Spec
 INVARIANT BehaviourExport
 CHECK_DEADLOCK FALSE
